@@ -14,7 +14,8 @@ TARGETS = ['theories/Proofs/UnknownProofs.v', 'theories/Run/RunLoad.v']
 RULE = ('valid documents x every insertion point inside blocks that admit optional sub-elements x unknown payloads: keyword with '
         'scalar arguments, /begin X .. /end X with nested unknown blocks (also of the same tag X), comments inside; the payload never reuses a tag of the '
         'enclosing block and a bare keyword is not placed behind an open identifier list; each injected document is loaded in both '
-        'modes and compared with the base document; non-trivial = every injected case; distinct = distinct text')
+        'modes and compared with the base document; documents in several files with the unknown element (keyword and block form) as the last / first thing of an '
+        'include file and directly in front of / behind the /include directive; non-trivial = every injected case; distinct = distinct text')
 ASSUMPTIONS = ['the base document is valid (loads strictly without diagnostics)']
 
 
@@ -115,6 +116,82 @@ def distribution(cases, res):
             'block_form': sum(1 for c in cases if c['kind'] == 'injected' and 'BLOCK' in c['tag'])}
 
 
+# ---------------------------------------------------------------------------------------------- documents that live in several files
+_MEAS = '/begin MEASUREMENT %s "" UBYTE NO_COMPU_METHOD 0 0 0 255 /end MEASUREMENT\n'
+
+
+def _kw_payload(rng):
+    parts = []
+    for _ in range(rng.randrange(1, 4)):
+        parts.append(rng.choice(['%d' % rng.randrange(70000), '"pay load"', '1.5e3', 'uk_value_%d' % rng.randrange(10), '0x1F']))
+    return ' '.join(parts)
+
+
+def file_cases(rng, tier):
+    """(label, files with the unknown element, files without it, tag): the unknown element stands at a file boundary - last
+    thing of an include file, first thing of one, directly in front of or behind an /include directive"""
+    out = []
+    n = 6 if tier == 'quick' else 150
+    head = 'ASAP2_VERSION 1 71\n/begin PROJECT p ""\n/begin MODULE m ""\n'
+    tail = '/end MODULE\n/end PROJECT\n'
+    for i in range(n):
+        tag = 'UNKNOWN_KW_%d' % rng.randrange(100)
+        kw = '%s %s\n' % (tag, _kw_payload(rng))
+        blk = '/begin %s %s /begin INNER 1 /end INNER /end %s\n' % (tag, _kw_payload(rng), tag)
+        sub = rng.choice(['', 'sub/'])
+        inc = '/include "%sa.a2l"\n' % sub
+        for form, u in (('keyword', kw), ('block', blk)):
+            for where in ('end-of-include', 'start-of-include', 'before-directive', 'behind-directive'):
+                a_with = {'end-of-include': _MEAS % 'm2' + u, 'start-of-include': u + _MEAS % 'm2'}.get(where, _MEAS % 'm2')
+                main_mid = {'before-directive': _MEAS % 'm1' + u + inc + _MEAS % 'm3',
+                            'behind-directive': _MEAS % 'm1' + inc + u + _MEAS % 'm3'}.get(where, _MEAS % 'm1' + inc + _MEAS % 'm3')
+                with_u = {'main.a2l': head + main_mid + tail, sub + 'a.a2l': a_with}
+                without = {'main.a2l': head + _MEAS % 'm1' + inc + _MEAS % 'm3' + tail, sub + 'a.a2l': _MEAS % 'm2'}
+                out.append(('%s %s' % (form, where), with_u, without, tag))
+    return out
+
+
+def extra_stage(v, tier, rng, impl):
+    """unknown elements at the boundary between an including and an included file"""
+    from checks import inclib
+    fcs = file_cases(rng, tier)
+    lines = []
+    for label, fw_, fo, tag in fcs:
+        for files, strict in ((fo, 0), (fw_, 0), (fw_, 1)):
+            lines.append(sx.enc([[[p_, inclib._bytes(files[p_])] for p_ in sorted(files)], 'main.a2l', strict]))
+    out = fw.run_isolating([impl, 'LOADINC'], lines, single_timeout=60)
+    inclib.cleanup_tmp()
+    found = []
+    for i, (label, fw_, fo, tag) in enumerate(fcs):
+        base, lenient, strict = (loadlib.Loaded(out[3 * i + k]) for k in range(3))
+        why = None
+        if base.status != 'OK' or base.diags:
+            continue
+        if lenient.status != 'OK':
+            why = 'non-strict loading fails on an unknown element %s at a file boundary (%s): %s' % (tag, label, lenient.status)
+        else:
+            ds = lenient.diag_list()
+            if len(ds) != 1 or ds[0][1] != 'UnknownSubBlock' or ds[0][3] != tag:
+                why = 'expected exactly one UnknownSubBlock warning for %s (%s), got %s' % (tag, label, [(d[1], d[3]) for d in ds])
+            else:
+                d = loadlib.veq(base.node, lenient.node)
+                if d:
+                    why = 'the rest of the document is loaded differently with the unknown element at a file boundary (%s): %s' % (label, d)
+        if why is None:
+            if strict.status != 'ERR':
+                why = 'strict loading accepts the unknown element %s (%s)' % (tag, label)
+            else:
+                e = loadlib.diag_key(strict.err)
+                if e[1] != 'UnknownSubBlock' or e[3] != tag:
+                    why = 'strict error does not name the unknown element (%s): %s' % (label, e)
+        if why:
+            found.append({'payload': {'kind': 'LOADINC', 'files': fw_, 'files_without': fo, 'main': 'main.a2l', 'tag': tag, 'why': why,
+                                      'case': lines[3 * i + 1], 'stage': 'W (unknown element at a file boundary)'}})
+    v.coverage['file_boundary_cases'] = len(fcs)
+    v.coverage['file_boundary_failures'] = len(found)
+    return found
+
+
 def check(tier, seed):
     import checks.c07 as me
     return loadcheck.run(me, tier, seed)
@@ -122,5 +199,23 @@ def check(tier, seed):
 
 def replay(r):
     import checks.c07 as me
-    print('replay of C07 cases needs the base document; see prop_case in the replay file')
+    from checks import inclib
+    impl = fw.build_harness()
+    if r.get('kind') == 'LOADINC':
+        enc = lambda files, strict: sx.enc([[[p_, inclib._bytes(files[p_])] for p_ in sorted(files)], r['main'], strict])
+        out = fw.run_isolating([impl, 'LOADINC'], [enc(r['files_without'], 0), enc(r['files'], 0), enc(r['files'], 1)], single_timeout=60)
+        inclib.cleanup_tmp()
+        base, lenient, strict = (loadlib.Loaded(x) for x in out)
+        print('without the unknown element:', base.status, base.diag_list() if base.status == 'OK' else '')
+        print('non-strict:', lenient.status, lenient.diag_list() if lenient.status == 'OK' else lenient.raw[:300])
+        print('strict:', strict.status, sx.pretty(strict.err)[:5] if strict.status == 'ERR' else '')
+        bad = lenient.status != 'OK' or [d[1] for d in lenient.diag_list()] != ['UnknownSubBlock'] or \
+            bool(loadlib.veq(base.node, lenient.node)) or strict.status != 'ERR'
+        print('oracle:', 'property violated' if bad else 'property holds on this input')
+        return 1 if bad else 0
+    c = r.get('prop_case') or {}
+    if 'text' in c:
+        res, _ = loadlib.run_impl([(c['text'], bool(c.get('strict')), None, 0)], impl)
+        print('implementation:', res[0].status, res[0].diag_list() if res[0].status == 'OK' else sx.pretty(res[0].err)[:5])
+    print('the verdict on an injected document needs its base document (case index %s of the run); re-run the check' % c.get('base'))
     return 1
